@@ -433,13 +433,16 @@ type c12Run struct {
 	t       *testing.T
 	res     *verifResult
 	hitOnce map[string]bool
+	perKey  map[string]int
 }
 
 func (x *c12Run) hit(key, oracle, what string, c interface{}, obs interface{}) {
-	if x.hitOnce[key+what] {
+	// at most three inputs per defect shape
+	if x.hitOnce[key+what] || x.perKey[key] >= 3 {
 		return
 	}
 	x.hitOnce[key+what] = true
+	x.perKey[key]++
 	x.res.hit(verifHit{Key: key, Oracle: oracle, What: what, Case: c, Observed: obs})
 }
 
@@ -850,7 +853,7 @@ func TestVerif_C12(t *testing.T) {
 	prod := env.c04Produce2(t)
 	env.writeTokenConsts(t, prod)
 	issuer := st.idpGetIssuer()
-	x := &c12Run{t: t, res: res, hitOnce: map[string]bool{}}
+	x := &c12Run{t: t, res: res, hitOnce: map[string]bool{}, perKey: map[string]int{}}
 	hit := x.hit
 	mainSpec := &c12Spec{name: "RSA-2048", signer: st.Signer}
 	main := &c12Site{name: "RSA-2048", suffix: "", env: env, keys: mainSpec.keys(), jwks: env.c12FetchJWKS(t), issuer: issuer, sid: sid}
